@@ -399,7 +399,7 @@ func (self Value) Interface(opts *Options) (interface{}, error) {
 			if id == f.Number() {
 				if typDesc.IsMap() || typDesc.IsList() {
 					it.p.Read = tagPos
-					if _, err := it.p.SkipAllElements(id, typDesc.IsPacked()); err != nil {
+					if _, err := it.p.SkipAllElementsOf(typDesc); err != nil {
 						return nil, errValue(meta.ErrRead, "SkipAllElements in LIST/MAP failed", err)
 					}
 					s = tagPos
